@@ -664,6 +664,9 @@ class Spectrum(Generic[_TData]):
         if array.ndim != 1:
             raise invalid_array_ndim("input array", "one-dimensional array", array.ndim)
 
+        if np.may_share_memory(array, self._data):
+            # Growing the buffer can move or resize the memory that the input array refers to.
+            array = array.copy()
         self._increase_capacity(len(array))
 
         offset = self._start_index + self._sample_count
